@@ -688,7 +688,9 @@ C01_CompleteAtOK  == RealSrv => \A r \in ORpcs : rp[r].cRes.cls = "eof" =>
 
 \* ---- C13 (wire conformance) ------------------------------------------------
 BadHas(c) == \E x \in bad : x[1] = c
-C13_SettingsFirst == ~BadHas("settings.not-first") /\ ~BadHas("settings.sid") /\ (RealSrv => tun.settingsSent <= 1)
+\* settings: only when negotiated, then as the first server frame, with stream id -1, once
+C13_SettingsFirst == ~BadHas("settings.not-first") /\ ~BadHas("settings.sid") /\ ~BadHas("legacy.settings")
+                     /\ (RealSrv => tun.settingsSent <= 1)
 C13_Framing == /\ ~BadHas("framing.envelope-inside-message") /\ ~BadHas("framing.len>size")
                /\ ~BadHas("framing.continuation-without-message") /\ ~BadHas("framing.overrun-of-size")
                /\ ~BadHas("unknown-frame")
